@@ -214,7 +214,9 @@ def cvWriteFlip : Flip := .rows
 def cvReadFlip : Flip := .rows
 
 /-- apply an index map to a list -/
-def permute {α} (d : α) (l : List α) (f : Nat → Nat) : List α := (List.range l.length).map fun i => l.getD (f i) d
+def permute {α} (d : α) (l : List α) (f : Nat → Nat) : List α :=
+  let a := l.toArray      -- O(1) indexing for the driver; `a.getD i d = l.getD i d`
+  (List.range l.length).map fun i => a.getD (f i) d
 
 /-! ## Zygo samples -/
 
@@ -226,12 +228,23 @@ def phaseRes1 : Int := 32768
 /-- python `int()`/`astype(int)` on a rational: truncation toward zero, as an `Int` -/
 def truncRat (x : Rat) : Int := if x < 0 then Rat.ceil x else Rat.floor x
 
+/-- comparison operators of the source (`phase >= ZYGO_INVALID_PHASE`, `a == nda`) -/
+inductive Cmp | ge | gt | le | lt | eq | ne
+deriving DecidableEq, Repr
+
+def Cmp.holds (c : Cmp) (a b : Int) : Bool :=
+  match c with
+  | .ge => decide (b ≤ a) | .gt => decide (b < a) | .le => decide (a ≤ b) | .lt => decide (a < b)
+  | .eq => decide (a = b) | .ne => decide (a ≠ b)
+
 /-- exact (rational) counts: `trunc(x / q)`, `none` = invalid sample -/
 def zygoEncode (q : Rat) : Option Rat → Int
   | none => zygoInvalid
   | some x => truncRat (x / q)
 
-def zygoDecode (q : Rat) (n : Int) : Option Rat := if zygoInvalid ≤ n then none else some ((n : Rat) * q)
+/-- the reader's invalid test and scaling, with the comparison and the sentinel of the source as parameters -/
+def zygoDecodeG (cmp : Cmp) (inv : Int) (q : Rat) (n : Int) : Option Rat := if cmp.holds n inv then none else some ((n : Rat) * q)
+def zygoDecode (q : Rat) (n : Int) : Option Rat := zygoDecodeG .ge zygoInvalid q n
 
 /-- the writer's pre-quantisation arithmetic, `phase/1e9*(1/sf)` with `sf = (W*S*O)/R`; `W` is the wavelength as the
 header stores it: `r32 (wavelength/1e6)`, `r32` = rounding to a 32-bit float (any function, in the theorems) -/
@@ -249,9 +262,13 @@ def zygoCountF (wvl x : Float) : Int :=
     let sf := (W * 1.0 * 1.0) / 32768.0
     (x / 1000000000.0 * (1.0 / sf)).toInt64.toInt
 
-/-- IEEE double version of the reader's arithmetic; `W` is the float32 read from the header -/
-def zygoValueF (W S O R : Float) (n : Int) : Float :=
-  if zygoInvalid ≤ n then (0.0 / 0.0) else Float.ofInt n * ((W * S * O) / R * 1000000000.0)
+/-- IEEE version of the reader's arithmetic; `W` is the float32 read from the header.  `prec32`: `config.precision = 32`,
+the samples are cast to float32 first and compared / scaled in float32 -/
+def zygoValueF (prec32 : Bool) (W S O R : Float) (n : Int) : Float :=
+  if prec32 then
+    let x := Float32.ofInt n
+    if x ≥ Float32.ofInt zygoInvalid then (0.0 / 0.0) else (x * ((W * S * O) / R * 1000000000.0).toFloat32).toFloat
+  else if zygoInvalid ≤ n then (0.0 / 0.0) else Float.ofInt n * ((W * S * O) / R * 1000000000.0)
 
 /-- body of the file: samples in file order, big-endian `int32` -/
 def bodyBytes (samples : List Int) : List Nat := samples.flatMap be32
@@ -260,17 +277,37 @@ def bodyBytes (samples : List Int) : List Nat := samples.flatMap be32
 def sampleAt (f : List Nat) (off : Nat) : Int :=
   de32 [f.getD off 0, f.getD (off + 1) 0, f.getD (off + 2) 0, f.getD (off + 3) 0]
 
-/-- the reader's counts in file order for a file of `f.length` bytes that declares `n` samples;
+/-- `sampleAt` on an array -/
+def sampleAtA (a : Array Nat) (off : Nat) : Int :=
+  de32 [a.getD off 0, a.getD (off + 1) 0, a.getD (off + 2) 0, a.getD (off + 3) 0]
+
+/-- number of bytes the reader appends: `plen*4 - (len(contents) - (header_len + ilen*2))` -/
+def modelMissing (plen flen hdr ilen : Int) : Int := plen * 4 - (flen - (hdr + ilen * 2))
+/-- number of trailing samples the reader invalidates: `math.ceil(len(missing_buf)/4)` -/
+def modelBacktrack (missing : Int) : Int := pyCeilDiv missing 4
+
+/-- lower bound of the slice the reader overwrites with the sentinel: `phase_raw[-backtrack:]` -/
+def modelTailLower (backtrack : Int) : Int := -backtrack
+
+/-- first index of the Python slice `x[lo:]` of a length-`n` buffer -/
+def sliceStart (n : Nat) (lo : Int) : Nat := if lo < 0 then (n + lo).toNat else min lo.toNat n
+
+/-- the reader's counts in file order for a file of `f.length` bytes that declares `n` samples, with the truncation
+arithmetic of the source as parameters (`missingF plen flen hdr ilen`, `backtrackF missing`, lower slice bound `tailF backtrack`, the sentinel);
 `none` = the reader raises (header or intensity block incomplete) -/
-def readCounts (f : List Nat) (n : Nat) : Option (List Int) :=
+def readCountsG (missingF : Int → Int → Int → Int → Int) (backtrackF : Int → Int) (tailF : Int → Int) (inv : Int)
+    (f : List Nat) (n : Nat) : Option (List Int) :=
   if f.length < headerLen then none
   else
-    let valid : Int := (f.length : Int) - headerLen
-    let missing : Int := 4 * (n : Int) - valid
-    if missing ≤ 0 then some ((List.range n).map fun j => sampleAt f (headerLen + 4 * j))
+    let a := f.toArray      -- O(1) indexing for the driver
+    let missing : Int := missingF n f.length headerLen 0
+    if missing ≤ 0 then some ((List.range n).map fun j => sampleAtA a (headerLen + 4 * j))
     else
-      let backtrack := (pyCeilDiv missing 4).toNat
-      some ((List.range n).map fun j => if n ≤ j + backtrack then zygoInvalid else sampleAt f (headerLen + 4 * j))
+      let start := sliceStart n (tailF (backtrackF missing))
+      some ((List.range n).map fun j => if start ≤ j then inv else sampleAtA a (headerLen + 4 * j))
+
+/-- … with the hand model's arithmetic (what the driver runs) -/
+def readCounts (f : List Nat) (n : Nat) : Option (List Int) := readCountsG modelMissing modelBacktrack modelTailLower zygoInvalid f n
 
 /-- was the truncation branch (warning) taken? -/
 def readWarns (f : List Nat) (n : Nat) : Bool := headerLen ≤ f.length && f.length < headerLen + 4 * n
@@ -304,7 +341,7 @@ def zygoFile (table : List Row) (sets : List (String × Src)) (a : WArgs) (vals 
   headerBytes table sets a ++ bodyBytes fileOrder
 
 /-- the reader on a (possibly truncated) file: `(h, w, lateral_resolution, wavelength, values in output order, warned)` -/
-def zygoRead (f : List Nat) : Option (Nat × Nat × Float × Float × List Float × Bool) :=
+def zygoRead (prec32 : Bool) (f : List Nat) : Option (Nat × Nat × Float × Float × List Float × Bool) :=
   let w := hdrU16 f offWidth
   let h := hdrU16 f offHeight
   match readCounts f (h * w) with
@@ -316,7 +353,7 @@ def zygoRead (f : List Nat) : Option (Nat × Nat × Float × Float × List Float
     let res := hdrU16 f offPhaseRes
     let R : Float := if res = 0 then 4096.0 else if res = 1 then 32768.0 else 131072.0
     let out := permute 0 counts (flipIdx zygoReadFlip h w)
-    some (h, w, hdrF32 f offLatRes, W, out.map (zygoValueF W S O R), readWarns f (h * w))
+    some (h, w, hdrF32 f offLatRes, W, out.map (zygoValueF prec32 W S O R), readWarns f (h * w))
 
 /-! ## Code V grid INT -/
 
@@ -344,13 +381,22 @@ def cvDecode (wvl ssz : Rat) (n : Int) : Option Rat := if n = cvNDA then none el
 def cvHeaderDims (h w : Nat) : Nat × Nat := (w, h)
 def cvReadShape (tok1 tok2 : Nat) : Nat × Nat := (tok2, tok1)
 
+/-- the divisor search of the writer's text layout: `while size % width != 0: width -= 1` (fuel = the start value) -/
+def widthSearch (size : Nat) : Nat → Nat → Nat
+  | 0, width => width
+  | fuel+1, width => if width ≤ 1 then width else if size % width = 0 then width else widthSearch size fuel (width - 1)
+
 /-- number of text lines `np.savetxt` writes: the largest divisor of `size` that is `≤ 585` -/
-def cvLines (size : Nat) : Nat :=
-  let rec go (fuel width : Nat) : Nat :=
-    match fuel with
-    | 0 => width
-    | fuel+1 => if width ≤ 1 then width else if size % width = 0 then width else go fuel (width - 1)
-  go 585 585
+def cvLines (size : Nat) : Nat := widthSearch size 585 585
+
+/-- does a reader with this keyword table (keyword, number of values) accept this header token list? -/
+def acceptsHeader (table : List (String × Nat)) : Nat → List String → Bool
+  | _, [] => true
+  | 0, _ => false
+  | fuel+1, kw :: rest =>
+    match table.find? (fun p => p.1 == kw) with
+    | some p => rest.length ≥ p.2 && acceptsHeader table fuel (rest.drop p.2)
+    | none => false
 
 /-- round half to even on a double (`np.around`), exact for `|x| < 2^52` -/
 def roundHalfEvenF (x : Float) : Float :=
@@ -362,25 +408,56 @@ def roundHalfEvenF (x : Float) : Float :=
 def fmin (a b : Float) : Float := if b < a then b else a
 def fmax (a b : Float) : Float := if a < b then b else a
 
-/-- IEEE double version of the writer: `(scale, counts in file order)`; input values in nm, row-major -/
-def cvWriteF (h w : Nat) (vals : List Float) : Float × List Int :=
+/-- IEEE double version of the writer's arithmetic: `(scale, counts in map order)`; input values in nm, row-major -/
+def cvCountsF (vals : List Float) (eps : Float := 2.220446049250313e-16) : Float × List Int :=
   let um := vals.map (· / 1000.0)
   let valid := um.filter (fun x => !x.isNaN)
   let mn := valid.foldl fmin (valid.headD (0.0 / 0.0))      -- `np.nanmin` of an all-NaN map is NaN
   let mx := valid.foldl fmax (valid.headD (0.0 / 0.0))
   let peak0 := fmax mn.abs mx.abs
-  let peak := if peak0 < 2.220446049250313e-16 then 1.0 else peak0
+  let peak := if peak0 < eps then 1.0 else peak0      -- `np.finfo(array.dtype).eps`
   let scale := 32767.0 / peak
-  let counts := um.map fun x => if x.isNaN then cvNDA else (roundHalfEvenF (x * scale)).toInt64.toInt
+  (scale, um.map fun x => if x.isNaN then cvNDA else (roundHalfEvenF (x * scale)).toInt64.toInt)
+
+/-- the writer: `(scale, counts in file order)` -/
+def cvWriteF (h w : Nat) (vals : List Float) (eps : Float := 2.220446049250313e-16) : Float × List Int :=
+  let (scale, counts) := cvCountsF vals eps
   (scale, permute 0 counts (flipIdx cvWriteFlip h w))
 
-/-- IEEE double version of the reader: values in output order given header tokens and the integer list -/
-def cvReadF (tok1 tok2 : Nat) (wvl ssz : Float) (nda : Int) (ints : List Int) : Option (Nat × Nat × List Float) :=
+/-- the reader on the integers of the data block: `ends` = the block ends in white space; when it does not, the last
+number may have lost digits and is replaced by `nda` (with a warning).  Result: `(rows, cols, integers in map order, warned)` -/
+def cvReadInts (tok1 tok2 : Nat) (nda : Int) (ends : Bool) (ints : List Int) : Option (Nat × Nat × List Int × Bool) :=
   let (h, w) := cvReadShape tok1 tok2
-  if ints.length ≠ h * w then none
-  else
-    let k := 1000.0 * wvl / ssz
-    let vals := ints.map fun n => if n = nda then (0.0 / 0.0) else Float.ofInt n * k
-    some (h, w, permute 0.0 vals (flipIdx cvReadFlip h w))
+  let ints' := if ends || ints.isEmpty then ints else ints.dropLast ++ [nda]
+  if ints'.length ≠ h * w then none
+  else some (h, w, permute 0 ints' (flipIdx cvReadFlip h w), !ends && !ints.isEmpty)
+
+/-- IEEE version of the reader's scaling (`prec32`: `config.precision = 32`, the arithmetic is done in float32) -/
+def cvValueF (prec32 : Bool) (wvl ssz : Float) (nda : Int) (n : Int) : Float :=
+  if n = nda then (0.0 / 0.0)
+  else if prec32 then (Float32.ofInt n * (1000.0 * wvl / ssz).toFloat32).toFloat
+  else Float.ofInt n * (1000.0 * wvl / ssz)
+
+def cvReadF (prec32 : Bool) (tok1 tok2 : Nat) (wvl ssz : Float) (nda : Int) (ends : Bool) (ints : List Int) :
+    Option (Nat × Nat × List Float × Bool) :=
+  (cvReadInts tok1 tok2 nda ends ints).map fun (h, w, l, warned) => (h, w, l.map (cvValueF prec32 wvl ssz nda), warned)
+
+/-! ## Code V data block as text: numbers separated by white space, no count, no trailer -/
+
+def isWS (c : Char) : Bool := c == ' ' || c == '\n' || c == '\t' || c == '\r'
+
+/-- `str.split()`: maximal runs of non-blank characters (`cur` = the run being read) -/
+def splitWS : List Char → List Char → List (List Char)
+  | [], cur => if cur.isEmpty then [] else [cur]
+  | c :: cs, cur => if isWS c then (if cur.isEmpty then splitWS cs [] else cur :: splitWS cs []) else splitWS cs (cur ++ [c])
+
+def endsWS (t : List Char) : Bool := match t.getLast? with | some c => isWS c | none => true
+
+/-- what `np.savetxt` writes for the integer tokens: every token followed by a newline -/
+def cvDataText (toks : List (List Char)) : List Char := toks.flatMap (· ++ ['\n'])
+
+/-- the reader on the text of the data block (`parse` = text → integer, trusted) -/
+def cvReadText (tok1 tok2 : Nat) (nda : Int) (parse : List Char → Int) (t : List Char) : Option (Nat × Nat × List Int × Bool) :=
+  cvReadInts tok1 tok2 nda (endsWS t) ((splitWS t []).map parse)
 
 end Model.C14
